@@ -41,6 +41,9 @@ pub struct App {
     pub pieces: Vec<(u16, bool)>,
     /// read buffer size
     pub rbuf: u16,
+    /// bit k set: piece k is written with `write_vectored` (two IoSlices) instead of `write`
+    #[serde(default)]
+    pub vectored: u8,
 }
 
 #[derive(Clone, Debug, Serialize, Deserialize)]
@@ -94,7 +97,7 @@ pub fn payload() -> impl Strategy<Value = Vec<u8>> {
 
 fn app() -> impl Strategy<Value = App> {
     (any::<u16>(), proptest::collection::vec((prop_oneof![1u16..8, 1u16..400], any::<bool>()), 0..4), prop_oneof![1u16..4, 1u16..600])
-        .prop_map(|(pre_read, pieces, rbuf)| App { pre_read, pieces, rbuf })
+        .prop_flat_map(|(pre_read, pieces, rbuf)| prop_oneof![3 => Just(0u8), 2 => any::<u8>(), 1 => Just(1u8)].prop_map(move |vectored| App { pre_read, pieces: pieces.clone(), rbuf, vectored }))
 }
 
 pub fn strategy() -> impl Strategy<Value = Case> {
@@ -166,6 +169,7 @@ pub struct SideOut {
     pub nego: End,
     pub events: Vec<Ev>,
     pub received: Vec<u8>,
+    pub vectored_writes: u32,
 }
 
 /// The application on one side of a negotiated stream. Stops at the first error (as an
@@ -195,10 +199,34 @@ async fn run_app(mut io: Negotiated<Tap<Duplex>>, payload: Vec<u8>, app: App, pr
     let mut off = 0;
     let mut pieces = app.pieces.clone();
     pieces.push((u16::MAX, true));
-    for (len, flush) in pieces {
+    for (k, (len, flush)) in pieces.into_iter().enumerate() {
         let end = (off + len as usize).min(payload.len());
         if off < end {
-            match io.write_all(&payload[off..end]).await {
+            let res = if k < 8 && app.vectored & (1 << k) != 0 {
+                // vectored write of the piece as two slices, repeated until everything is accepted
+                let mut at = off;
+                let mut r = Ok(());
+                while at < end {
+                    let mid = at + (end - at) / 2;
+                    let bufs = [std::io::IoSlice::new(&payload[at..mid]), std::io::IoSlice::new(&payload[mid..end])];
+                    match io.write_vectored(&bufs).await {
+                        Ok(0) => {
+                            r = Err(std::io::Error::from(std::io::ErrorKind::WriteZero));
+                            break;
+                        }
+                        Ok(n) => at += n,
+                        Err(e) => {
+                            r = Err(e);
+                            break;
+                        }
+                    }
+                }
+                out.vectored_writes += 1;
+                r
+            } else {
+                io.write_all(&payload[off..end]).await
+            };
+            match res {
                 Ok(()) => out.events.push(Ev::Wrote(end - off)),
                 Err(e) => {
                     out.events.push(Ev::WriteErr(kind_name(e.kind())));
@@ -287,7 +315,7 @@ pub fn check(c: &Case) -> Outcome {
     {
         let (slot, names, payload, app) = (d_slot.clone(), d_names.clone(), c.d_payload.clone(), c.d_app.clone());
         ex.spawn_named("dialer", async move {
-            let mut out = SideOut { nego: End::Failed, events: vec![], received: vec![] };
+            let mut out = SideOut { nego: End::Failed, events: vec![], received: vec![], vectored_writes: 0 };
             match dialer_select_proto(d_io, names, version).await {
                 Ok((p, io)) => {
                     out.nego = End::Ok(p);
@@ -301,7 +329,7 @@ pub fn check(c: &Case) -> Outcome {
     {
         let (slot, names, payload, app) = (l_slot.clone(), l_names.clone(), c.l_payload.clone(), c.l_app.clone());
         ex.spawn_named("listener", async move {
-            let mut out = SideOut { nego: End::Failed, events: vec![], received: vec![] };
+            let mut out = SideOut { nego: End::Failed, events: vec![], received: vec![], vectored_writes: 0 };
             match listener_select_proto(l_io, names).await {
                 Ok((p, io)) => {
                     out.nego = End::Ok(p);
@@ -351,6 +379,9 @@ pub fn check(c: &Case) -> Outcome {
     }
     if rejected >= 1 {
         labels.push("rejected>=1");
+    }
+    if d.vectored_writes + l.vectored_writes > 0 {
+        labels.push("vectored-write");
     }
     // split of a negotiation frame, either direction
     let d2l_frames = frames_of(&ds.written, 1 + (rejected + 1).min(n));
